@@ -74,7 +74,8 @@ def plan(rnd, tid, nreq, buckets):
             out.append({"op": "batch", "bucket": ks[0][0], "keys": [k[1] for k in ks]})
         elif x < 0.80 and mine:
             k_ = mine.pop(rnd.randrange(len(mine)))
-            out.append({"op": "batch-partial", "bucket": k_[0], "keys": [k_[1]], "bad": ["t%d/../escape-%d" % (tid, i)]})
+            out.append({"op": "batch-partial", "bucket": k_[0], "keys": [k_[1]], "bad": ["t%d/" % tid]})
+        elif x < 0.81: out.append({"op": "batch-partial", "bucket": bk, "keys": [], "bad": ["t%d/" % tid]})     # every key of the batch fails (a directory that still holds keys)
         elif x < 0.82: out.append({"op": "put-nobucket", "bucket": "no-such-bucket-%d" % tid, "key": key, "size": size})
         elif x < 0.86: out.append({"op": "put-baddigest", "bucket": bk, "key": key, "size": max(size, 1)})
         elif x < 0.89: out.append({"op": "copy-nosource", "bucket": bk, "key": key})
